@@ -208,3 +208,17 @@ Fixpoint trace_views (n : nat) (st : state) (l : list ev) : list (option (bool *
   end.
 
 Definition ghosts (n : nat) (st : state) : list bool := map (unpaused_since_reg st) (seq 0 n).
+
+(** Compact numeric rendering of [trace_views] (what props/c16.py reads back):
+    a step is [paused; resume half done; pc codes ...], [[]] = step not enabled;
+    pc codes: 0 idle, 1 registered, 2 loaded false, 3 loaded true, 4 blocked, 5 past the gate. *)
+Definition code_pc (v : vpc) : nat :=
+  match v with VIdle => 0 | VReg => 1 | VLoaded false => 2 | VLoaded true => 3 | VBlocked => 4 | VPassed => 5 end.
+
+Definition code_view (v : option (bool * bool * list vpc)) : list nat :=
+  match v with
+  | Some (p, m, l) => (if p then 1 else 0) :: (if m then 1 else 0) :: map code_pc l
+  | None => []
+  end.
+
+Definition trace_codes (n : nat) (l : list ev) : list (list nat) := map code_view (trace_views n init l).
